@@ -30,11 +30,22 @@ def main() -> int:
         return int(mod.run(a.tier))
     except MachineryError as e:
         print(f"MACHINERY-ERROR {a.pid}: {e}", file=sys.stderr)
-        return 2
+        return _after_failure(a)
     except Exception:
         traceback.print_exc()
         print(f"MACHINERY-ERROR {a.pid}: unexpected exception in the harness", file=sys.stderr)
-        return 2
+        return _after_failure(a)
+
+
+def _after_failure(a) -> int:
+    """The harness failed.  Violations that were already reported (each with its replay file) are contradictions between
+    the real code and the specification that were established before the failure: they stand (exit 1).  Without any
+    (always the case on a tree that satisfies the property) it is a machinery failure (exit 2), never an alarm."""
+    from .core import PRINTED_VIOLATIONS
+    if not a.replay and not a.selftest and PRINTED_VIOLATIONS[0] > 0:
+        print(f"{a.pid}: the run stopped early after {PRINTED_VIOLATIONS[0]} reported violation(s); they stand", flush=True)
+        return 1
+    return 2
 
 
 if __name__ == "__main__":
